@@ -1452,7 +1452,9 @@ impl StoryState {
             self.switch_to_default_flow_internal();
         }
 
-        self.named_flows.as_mut().unwrap().remove(flow_name);
+        if let Some(named_flows) = self.named_flows.as_mut() {
+            named_flows.remove(flow_name);
+        }
         self.alive_flow_names_dirty = true;
 
         Ok(())
